@@ -193,7 +193,9 @@ theorem vng_alloc_bounded_partial (s : Vng.Segment) (dataSize : Nat)
 
 /-- **validate_sound_partial.**  FULL statement (false of the current code, see the two negations
     below): `validate t b = true → WellFormed t b` for every type.  Proved: for every type without
-    set and enum components (guard `ZTy.plain`, decidable), every body the model of
+    enum components whose sets are sets of leaf types — primitives, possibly named or wrapped in
+    error — (guard `ZTy.plain`, decidable; `Validate` checks a set's element order but never walks
+    the elements, so sets of containers are exactly where the code is wrong), every body the model of
     `Value.Validate` accepts is structurally consistent with the type: containers split into
     items, one well-formed item per record field in order, well-formed array elements, alternating
     well-formed map keys and values, union bodies of exactly a tag in range and a well-formed
@@ -217,8 +219,27 @@ theorem validate_iff_wellformed (t : ZTy) (b : Option Bytes) (hg : t.plain = tru
   · exact validate_sound_partial t b hg
   · intro h; simp [validate, walk_complete t b hg h]
 
+/-- **validate_enum_sound_partial.**  For an enum the code is right exactly when the selector is
+    below 2^63 (guard on the value: `checkEnum` compares a signed int): then an accepted selector is
+    in range. -/
+theorem validate_enum_sound_partial (syms : List Bytes) (body : Bytes)
+    (hg : decodeCountedUvarint body < two63) (h : validate (.enum syms) (some body) = true) :
+    WellFormed (.enum syms) (some body) := by
+  apply WellFormed.enum
+  simp only [validate, walk] at h
+  split at h
+  · rename_i hw
+    split at hw
+    · cases hw
+    · rename_i hlt
+      have hu : decodeCountedUvarint body % two64 = decodeCountedUvarint body := by
+        unfold two63 two64 at *; omega
+      simp only [asInt, hu, hg, if_true, Int.ofNat_eq_natCast] at hlt
+      omega
+  · cases h
+
 /-- non-vacuity of the guard and of the hypothesis -/
-example : (ZTy.record (.cons [97] (.array (.prim 9)) (.cons [98] (.union (.cons (.prim 9) (.cons (.prim 25) .nil))) .nil))).plain = true := by
+example : (ZTy.record (.cons [97] (.array (.prim 9)) (.cons [98] (.union (.cons (.prim 9) (.cons (.set (.named [112] (.prim 25))) .nil))) .nil))).plain = true := by
   decide
 
 /-- The full statement is false: `Validate` never looks inside the elements of a set. -/
